@@ -2906,6 +2906,24 @@ impl Context {
                 let name = self.consume_fnlabel();
                 let (c_idx, f, _astates) =
                     self.do_in_child_ctx(name, &binds, vec![], |ctx, c_idx| {
+                        // A parameter that is assigned (by the function or by a closure in it)
+                        // moves into a cell of its own at function entry, like a `let` variable:
+                        // every back end updates such a cell in place and shares it between the
+                        // function and its closures, whereas a bare argument may be read-only
+                        // or captured by value.
+                        for (label, ty, _) in binds
+                            .iter()
+                            .filter(|(label, _, _)| assigns_variable(*body, *label))
+                        {
+                            let arg = match ctx.lookup(label) {
+                                LookupRes::Local(arg) => arg.clone(),
+                                _ => unreachable!("a parameter is a local of its function"),
+                            };
+                            let value = ctx.push_inst(Instruction::Load(arg, *ty));
+                            let cell = ctx.push_inst(Instruction::Alloc(*ty));
+                            ctx.push_inst(Instruction::Store(cell.clone(), value, *ty));
+                            ctx.add_bind((*label, cell));
+                        }
                         let (res, body_ty, states) = ctx.eval_expr(*body);
                         let effective_rt = if matches!(rt.to_type(), Type::Failure) {
                             body_ty
@@ -4396,6 +4414,49 @@ pub fn compile(
         file_path,
         crate::ast::program::ModuleInfo::new(),
     )
+}
+
+/// Whether `e` contains an assignment to the variable `name` (or to a part of it), in the
+/// function itself or in a closure inside it. Shadowing is ignored: a `true` too many only
+/// costs a cell.
+fn assigns_variable(e: ExprNodeId, name: Symbol) -> bool {
+    let rec = |e: &ExprNodeId| assigns_variable(*e, name);
+    let rec_opt = |e: &Option<ExprNodeId>| e.as_ref().is_some_and(rec);
+    let rec_fields = |fs: &[RecordField]| fs.iter().any(|f| rec(&f.expr));
+    fn assignee_root(e: ExprNodeId) -> Option<Symbol> {
+        match e.to_expr() {
+            Expr::Var(name) => Some(name),
+            Expr::Proj(e, _) | Expr::FieldAccess(e, _) | Expr::ArrayAccess(e, _) => {
+                assignee_root(e)
+            }
+            _ => None,
+        }
+    }
+    match e.to_expr() {
+        Expr::Assign(lhs, rhs) => assignee_root(lhs) == Some(name) || rec(&lhs) || rec(&rhs),
+        Expr::Lambda(params, _, body) => {
+            params.iter().any(|p| rec_opt(&p.default_value)) || rec(&body)
+        }
+        Expr::Proj(e, _)
+        | Expr::FieldAccess(e, _)
+        | Expr::UniOp(_, e)
+        | Expr::Paren(e)
+        | Expr::Feed(_, e)
+        | Expr::Bracket(e)
+        | Expr::Escape(e) => rec(&e),
+        Expr::ArrayAccess(e1, e2) | Expr::BinOp(e1, _, e2) => rec(&e1) || rec(&e2),
+        Expr::Block(e) => rec_opt(&e),
+        Expr::Tuple(es) | Expr::ArrayLiteral(es) => es.iter().any(rec),
+        Expr::RecordLiteral(fields) | Expr::ImcompleteRecord(fields) => rec_fields(&fields),
+        Expr::RecordUpdate(e, fields) => rec(&e) || rec_fields(&fields),
+        Expr::Apply(e, args) | Expr::MacroExpand(e, args) => rec(&e) || args.iter().any(rec),
+        Expr::Then(e1, e2) | Expr::Let(_, e1, e2) | Expr::LetRec(_, e1, e2) => {
+            rec(&e1) || rec_opt(&e2)
+        }
+        Expr::If(cond, then, orelse) => rec(&cond) || rec(&then) || rec_opt(&orelse),
+        Expr::Match(scrutinee, arms) => rec(&scrutinee) || arms.iter().any(|arm| rec(&arm.body)),
+        Expr::Literal(_) | Expr::Var(_) | Expr::QualifiedVar(_) | Expr::Error => false,
+    }
 }
 
 /// Generate MIR from AST with module information (visibility and use aliases).
